@@ -2,7 +2,7 @@
 import json, os
 import vlib
 
-CLOSURE = ["Model/BgpAds.v", "Model/Speaker.v", "Proofs/BgpAdsElig.v", "Proofs/BgpAdsP.v", "Proofs/SpeakerP.v"]
+CLOSURE = ["Model/BgpAds.v", "Model/Speaker.v", "Proofs/BgpAdsElig.v", "Proofs/BgpAdsP.v", "Proofs/SpeakerP.v", "Proofs/SpeakerRefuted.v"]
 SIGS_KNOWN = "bgp-local-duplicate-address-across-nodes"
 
 
